@@ -4246,6 +4246,13 @@ class TLSConnection(TLSRecordLayer):
                     str(err)):
                 yield result
 
+        # an empty cert_type extension parses to certTypes=None
+        if clientHello.certificate_types is None:
+            for result in self._sendError(
+                    AlertDescription.decode_error,
+                    "Malformed cert_type extension"):
+                yield result
+
         #If an RSA suite is chosen, check for certificate type intersection
         if (cipherSuite in CipherSuite.certAllSuites or
             cipherSuite in CipherSuite.ecdheEcdsaSuites) \
